@@ -616,6 +616,9 @@ func bfsExtra() *smode.Extra {
 			}
 			return nil
 		},
+		Traces: func(h map[string]int64) int64 {
+			return h["bfs:transitions_executed"] + h["bfs:schedule_executions"] + h["bfs:pair_executions"]
+		},
 		Fold: func(c *engine.Check, h map[string]int64) {
 			c.Extra["bfs_model_states"] = h["bfs:model_states"]
 			c.Extra["bfs_model_transitions"] = h["bfs:model_transitions"]
